@@ -12,6 +12,8 @@ configure(factory, params, how)   estimator with hyper-parameters `params`:
    time shows.
 carry(est, how)                   same | deepcopy | pickle : the object that the next call is made on
 present(A, how)                   C | F | strided | readonly | list : the same numbers in another container
+clobber(*arrays)                  the caller re-uses its own buffers after the call: every writable array is overwritten
+                                  in place (what the model needs later it must have kept for itself)
 """
 
 from __future__ import annotations
@@ -84,3 +86,14 @@ def present(A, how="C"):
     if how == "list":
         return A.tolist()
     raise ValueError(how)
+
+
+def clobber(*arrays, j=None):
+    n = 0
+    for A in arrays:
+        if isinstance(A, np.ndarray) and A.flags.writeable and A.dtype.kind in "fiu" and A.size:
+            A[...] = 77 if A.dtype.kind in "iu" else 7.7e3
+            n += 1
+    if j is not None and n:
+        j.note("caller_buffers_overwritten_after_fit")
+    return n
